@@ -124,6 +124,10 @@ def run(chk):
     chk.rule = ('%d interleaved histories of about 300 calls: random vnadata history (C15 generator), property-tree history (C13 generator), two vnacal lives with parameters, '
                 'standards of every entry point in varied shapes, invalid calls from the C11 sweep, premature and repeated solves / add_calibration, apply, properties, save, '
                 'deletes in awkward order, and a file thread loading valid and mutated Touchstone / NPD text, saving and converting; line-level interleaving' % N)
+    # parameters that outlive a vnacal_new_t and are solved again on another grid (shorter, longer, shifted): no access beyond the new vectors
+    if not chk.violations:
+        from props import c02
+        c02.resolve_histories(chk, exe, rng, 3 if quick else 40)
     chk.samples = [[l[:90] for l in lines_last[:10]]]
     if broken and not chk.violations:
         chk.violation('obligation', 'proof/correspondence obligations that no longer check:\n' + '\n'.join(broken[:30]), nofail=True)
